@@ -1,13 +1,3 @@
 """Per-property claims (level, texts) -> MANIFEST.json via ../mkmanifest.py."""
 HOOK_COMMITS = []
 NOT_APPLICABLE = {}
-CHECKS = {
-    "C35": {
-        "level": "proof",
-        "text": "Coq theorems over a line-by-line model of ParseOne/ParseAll (termination, ordered concatenation, "
-                "maximal file runs, mixed-error iff) for all argument lists; model tied to the code by an exhaustive "
-                "small-scope + seeded differential run of the extracted model against xgoprojs.ParseAll.",
-        "note": "Trusted: Coq kernel, extraction (ExtrOcamlBasic), harness; filepath.Ext modelled for '/' separator; "
-                "the Go code itself is modelled, not verified.",
-    },
-}
